@@ -135,6 +135,18 @@ class Tag:
         return isinstance(o, Tag) and (self.kind, repr(self.payload)) == (o.kind, repr(o.payload))
 
 
+class Agg:
+    """aggregate SSA value (struct passed / returned by value): index path -> value"""
+    def __init__(self, fields=None):
+        self.fields = dict(fields or {})
+
+    def __repr__(self):
+        return 'Agg(%r)' % self.fields
+
+    def __eq__(self, o):
+        return isinstance(o, Agg) and repr(self.fields) == repr(o.fields)
+
+
 class Vars:
     def __init__(self):
         self.names = []; self.index = {}
@@ -354,6 +366,14 @@ class Interp:
         return obj, off
 
     def load(self, st, ptr, nbytes, inst, as_ptr=False):
+        if isinstance(ptr, Tag) and not as_ptr and nbytes == 1:
+            # a byte of an input token (opaque string): an unknown input byte, the same symbol for the same byte every time
+            t = ptr.payload[0] if ptr.kind == 'gep' else ptr
+            off = ptr.payload[1] if ptr.kind == 'gep' else 0
+            if isinstance(t, Tag) and t.kind == 'token' and ptr.kind in ('gep', 'token'):
+                st.trace.append(('token-byte-read', t.payload, off, inst.loc))
+                if off == '?': return BV([T(0)] * 8)
+                return self.V.bv('tok[%s][%s]' % (t.payload, off), 8)
         if isinstance(ptr, Ptr) and ptr.obj in st.mem.hooks:
             return st.mem.hooks[ptr.obj](self, st, ptr, nbytes, inst, as_ptr)
         obj, off = self._cells(st, ptr, nbytes, inst, 'load')
@@ -560,6 +580,10 @@ class Interp:
         if pred in ('slt', 'sge') and cb == 0:
             sb = A[-1]
             return BV([sb if pred == 'slt' else bnot(sb)])
+        if pred in ('sgt', 'sle') and cb == 0 and A[-1] == 0:    # non-negative x: x > 0 <=> x != 0
+            return allzero(A, pred == 'sgt')
+        if pred in ('sge', 'slt') and cb == 1 and A[-1] == 0:    # non-negative x: x >= 1 <=> x != 0
+            return allzero(A, pred == 'sge')
         if pred in ('sgt', 'sle') and cb == (1 << w) - 1:     # x > -1
             sb = A[-1]
             return BV([bnot(sb) if pred == 'sgt' else sb])
@@ -593,6 +617,19 @@ class Interp:
                 if is_top(x): return BV([T(alld)])
                 if is_form(x): raise Fork(x)
         return BV([T(alld)])
+
+    @staticmethod
+    def _select_same(zi, a, b):
+        """select(c, a, b) with c <=> (not) all of zi[1] zero: if the operand chosen when they are all zero equals the other operand with those
+        bits set to zero, the select is that other operand"""
+        _, nz, negate = zi
+        zsel, other = (b, a) if negate else (a, b)
+        if len(zsel.bits) != len(other.bits): return None
+        for x, y in zip(other.bits, zsel.bits):
+            if x == y: continue
+            if y == 0 and any(x == z for z in nz): continue
+            return None
+        return other
 
     # ---------- execution
     def run(self, fname, args, st):
@@ -650,7 +687,18 @@ class Interp:
                 if kind == 'fork-br':
                     # conditional branch on a symbolic bit
                     _, form, tb, fb, info = r
+                    if form is None and info is not None and info[0] == 'allzero':
+                        dj = self._value_diamond(f, frame, st, bb, tb, fb, info)
+                        if dj is not None:
+                            # `x != 0 ? x : 0`-style diamond whose arms compute nothing: the join's phis are decided without partitioning
+                            j, vals, via = dj
+                            frame['regs'].update(vals)
+                            prev, bb, idx = via, j, max(1, len(vals)); jumped = True
+                            if not vals: idx = 0
+                            break
                     return self.fork_branch(f, frame, bb, st, depth, form, tb, fb, info, i)
+                if kind == 'fork-switch':
+                    return self.fork_switch(f, frame, bb, st, depth, r[1], r[2])
                 if kind == 'multi':
                     # a call returned several partitions: continue each
                     outs = []
@@ -663,6 +711,30 @@ class Interp:
                 raise Unmodelled('internal: step result %r' % (r,))
             if not jumped:
                 raise Unmodelled('fell off block %d of %s' % (bb, f.name))
+
+    def _value_diamond(self, f, frame, st, bb, tb, fb, info):
+        def passthrough(b):
+            ins = [x for x in f.blocks[b] if not self.P.is_dbg(x)]
+            if len(ins) == 1 and ins[0].op == 'br' and len(f.succs[b]) == 1: return f.succs[b][0]
+            return None
+        jt, jf = passthrough(tb), passthrough(fb)
+        if jt is not None and jt == jf: j, pt, pf = jt, tb, fb
+        elif jt is not None and jt == fb: j, pt, pf = fb, tb, bb
+        elif jf is not None and jf == tb: j, pt, pf = tb, bb, fb
+        else: return None
+        vals = {}
+        for p in f.blocks[j]:
+            if p.op != 'phi': break
+            inc = {pb: v for v, pb in p.d['incoming']}
+            if set(inc) != {pt, pf}: return None
+            a = self.val(st, frame, inc[pt], p.d['bits']); b = self.val(st, frame, inc[pf], p.d['bits'])
+            if isinstance(a, BV) and isinstance(b, BV):
+                m = a if a.bits == b.bits else self._select_same(info, a, b)
+            else:
+                m = a if a == b else None
+            if m is None: return None
+            vals[p.id] = m
+        return j, vals, pt
 
     def _merge_or_keep(self, form, o0, o1, parent_cons):
         if len(o0) == 1 and len(o1) == 1:
@@ -716,6 +788,30 @@ class Interp:
             if len(outs) > self.budget: raise Unmodelled('partition budget exceeded')
             return outs
         return self._merge_or_keep(form, res[0], res[1], st.cons)
+
+    def fork_switch(self, f, frame, bb, st, depth, sv, inst):
+        """switch on a symbolic value: one partition per case (value == case constant, as linear constraints on its bits) and one for default"""
+        self.nforks += 1
+        outs = []
+        seen_targets = []
+        for cval, target in inst.d['cases']:
+            s2 = st.clone(); ok = True
+            for k, b in enumerate(sv.bits):
+                want = (cval >> k) & 1
+                if is_const(b):
+                    if b != want: ok = False
+                elif is_form(b):
+                    if not s2.cons.add(b, want): ok = False
+            if not ok: continue
+            s2.cons.opaque.append(('%s:switch-case-%d' % (inst.loc, cval), None))
+            fr2 = {'f': f, 'regs': dict(frame['regs']), 'args': frame['args'], 'allocas': frame['allocas']}
+            outs += self.run_from(f, fr2, target, bb, 0, s2, depth)
+        s2 = st.clone()
+        s2.cons.opaque.append(('%s:switch-default' % inst.loc, [c for c, _ in inst.d['cases']]))
+        fr2 = {'f': f, 'regs': dict(frame['regs']), 'args': frame['args'], 'allocas': frame['allocas']}
+        outs += self.run_from(f, fr2, inst.d['default'], bb, 0, s2, depth)
+        if len(outs) > self.budget: raise Unmodelled('partition budget exceeded')
+        return outs
 
     def refine_chain(self, f, regs, v, val):
         """in a partition where the i1 value v is known to be `val`, make the registers it was computed from (through zext / trunc /
@@ -784,7 +880,7 @@ class Interp:
                 bits.append(m)
             return BV(bits)
         if a is None and b is None: return 'none'
-        if isinstance(a, (Ptr, Tag)) and a == b: return a
+        if isinstance(a, (Ptr, Tag, Agg)) and a == b: return a
         return None
 
     def merge(self, form, o0, o1, parent_cons):
@@ -840,7 +936,9 @@ class Interp:
         elif op == 'getelementptr':
             base = V(0)
             if isinstance(base, Tag):
-                regs[i.id] = Tag('gep', (base, i.d['const_off'])); return None
+                if base.kind == 'gep':
+                    regs[i.id] = Tag('gep', (base.payload[0], '?' if i.d['var_steps'] or base.payload[1] == '?' else base.payload[1] + i.d['const_off'])); return None
+                regs[i.id] = Tag('gep', (base, '?' if i.d['var_steps'] else i.d['const_off'])); return None
             if not isinstance(base, Ptr):
                 if isinstance(base, BV) and base.concrete() == 0:
                     raise Unmodelled('pointer arithmetic on NULL at %s' % i.loc)
@@ -927,6 +1025,9 @@ class Interp:
                 zi = c.zero_iff
                 r.zero_iff = ('cond', zi if b.concrete() == 0 else ('allzero', zi[1], not zi[2]))
                 regs[i.id] = r
+            elif isinstance(a, BV) and isinstance(b, BV) and is_top(cb) and c.zero_iff and c.zero_iff[0] == 'allzero' and self._select_same(c.zero_iff, a, b) is not None:
+                # x != 0 ? x : 0 and the like: both operands agree whenever the condition picks the constant side
+                regs[i.id] = self._select_same(c.zero_iff, a, b)
             elif is_form(cb):
                 m = self.merge_val(cb, b, a)      # cb=0 -> b, cb=1 -> a
                 if m is None: raise Fork(cb)
@@ -952,11 +1053,23 @@ class Interp:
             return ('ret', V(0) if i.ops else None)
         elif op == 'call':
             return self.call(f, frame, i, st, depth)
+        elif op == 'insertvalue':
+            agg = self.val(st, frame, i.ops[0]) if i.ops[0]['k'] != 'undef' else Agg()
+            if not isinstance(agg, Agg): agg = Agg()
+            a2 = Agg(agg.fields); a2.fields[tuple(i.d['indices'])] = self.val(st, frame, i.ops[1])
+            regs[i.id] = a2
+        elif op == 'extractvalue':
+            agg = V(0)
+            if not isinstance(agg, Agg) or tuple(i.d['indices']) not in agg.fields:
+                raise Unmodelled('extractvalue of an unknown aggregate at %s' % i.loc)
+            regs[i.id] = agg.fields[tuple(i.d['indices'])]
         elif op == 'unreachable':
             st.events.append(('unreachable', i.loc)); return ('ret', None)
         elif op == 'switch':
-            c = V(0).concrete()
-            if c is None: raise Unmodelled('switch on symbolic value at %s' % i.loc)
+            sv = V(0)
+            c = sv.concrete()
+            if c is None:
+                return ('fork-switch', sv, i)
             return ('jump', dict((a, b) for a, b in i.d['cases']).get(c, i.d['default']))
         else:
             raise Unmodelled('opcode %s at %s' % (op, i.loc))
@@ -1025,6 +1138,14 @@ class Interp:
             return None
         if name in self.P.defined:
             g = self.P.defined[name]
+            for n, prm in enumerate(g.params):
+                if prm.get('byval') and n < len(args) and isinstance(args[n], Ptr) and args[n].obj in st.mem.objs and args[n].coff() is not None:
+                    # pass-by-value: the callee works on a private copy
+                    st.nalloca += 1
+                    cp = 'a:%s:byval%d:%d' % (base_name(name), n, st.nalloca)
+                    src = st.mem.objs[args[n].obj][args[n].coff():args[n].coff() + prm['byval']]
+                    st.mem.objs[cp] = [c if isinstance(c, tuple) else list(c) for c in src]; st.mem.owned.add(cp)
+                    args[n] = Ptr(cp, 0)
             outs = self.run_function(g, args, st, depth + 1)
             if len(outs) == 1:
                 # adopt the callee's final state (same object: state is mutated in place unless forked)
